@@ -156,16 +156,17 @@ func (l *Lay) hasUnknown() (bool, string) {
 
 // WEval evaluates layouts inside one function activation.
 type WEval struct {
-	P         *Prog
-	fn        *ssa.Function
-	args      map[ssa.Value]string         // parameter -> term in the outermost caller's vocabulary
-	consts    map[ssa.Value]constant.Value // parameter valuation (true/false)
-	nilArg    map[ssa.Value]bool           // parameter known nil / non-nil
-	nonNil    map[ssa.Value]bool
-	depth     int
-	memo      map[ssa.Value]*Lay
-	inPhi     map[*ssa.Phi]bool
-	elemNames map[ssa.Value]string // loop element loads -> "coll[i]"
+	P          *Prog
+	fn         *ssa.Function
+	args       map[ssa.Value]string         // parameter -> term in the outermost caller's vocabulary
+	consts     map[ssa.Value]constant.Value // parameter valuation (true/false)
+	nilArg     map[ssa.Value]bool           // parameter known nil / non-nil
+	nonNil     map[ssa.Value]bool
+	depth      int
+	memo       map[ssa.Value]*Lay
+	inPhi      map[*ssa.Phi]bool
+	elemNames  map[ssa.Value]string // loop element loads -> "coll[i]"
+	allocEpoch map[*ssa.Alloc]int   // reader paths: named locals are printed as name#epoch
 }
 
 func newWEval(p *Prog, fn *ssa.Function) *WEval {
@@ -196,6 +197,9 @@ func (w *WEval) term(v ssa.Value) string {
 		return w.term(x.X) + "." + fieldName(x.X.Type(), x.Field)
 	case *ssa.UnOp:
 		if x.Op == token.MUL {
+			if al, ok := x.X.(*ssa.Alloc); ok && w.allocEpoch != nil && al.Comment != "" {
+				return fmt.Sprintf("%s#%d", al.Comment, w.allocEpoch[al])
+			}
 			switch x.X.(type) {
 			case *ssa.FieldAddr, *ssa.IndexAddr:
 				if n, ok := w.elemNames[x]; ok {
@@ -230,6 +234,9 @@ func (w *WEval) term(v ssa.Value) string {
 			return b.Name() + "(" + w.term(x.Call.Args[0]) + ")"
 		}
 		if sc := x.Call.StaticCallee(); sc != nil {
+			if strings.Contains(sc.String(), "encoding/binary") && strings.HasPrefix(sc.Name(), "Uint") {
+				return decodeDesc(x)
+			}
 			if g := w.getterTerm(sc, x); g != "" {
 				return g
 			}
